@@ -194,12 +194,12 @@ def run(ses, rep):
     rep.samples.append({"integer_slice_symbols": sorted(sym), "paths": len(paths)})
     for oid, m, kind, k in flagged:
         confirm(rep, oid, m, kind, dict(a=a, b=b, ell=ell, sep=sep, nf=k, sh=sh))
-    more = measured_values(ses, rep) + text_twice(ses, rep, 4 if quick else 5)
+    more = measured_values(ses, rep) + text_twice(ses, rep, 4 if quick else 5) + paren_transparency(ses, rep)
     seen = {}
     for oid, what, kind, info in more:
         key = (kind, json.dumps(info, sort_keys=True))
         if key not in seen:
-            seen[key] = replay_measure(info) if kind == "measure" else replay_text(info)
+            seen[key] = replay_measure(info) if kind == "measure" else replay_paren(info) if kind == "paren" else replay_text(info)
         v, rec = seen[key]
         if v is None:
             rep.add(oid, "inconclusive", f"{what}: two formatting passes agree on the native build ({rec})")
@@ -210,6 +210,75 @@ def run(ses, rep):
 MEASURE = re.compile(r"(^|::)(take_last_line|take_first_line|test_over_budget)$")
 FORMATTED = re.compile(r"(^|::)(format_[a-z_0-9]*|hang_[a-z_0-9]*|fmt_[a-z_]*|try_format_[a-z_]*|create_[a-z_]*|strip_[a-z_]*|symbol|new|update_[a-z_]*|with_[a-z_]*|"
                        r"attempt_[a-z_]*|prepend_[a-z_]*|to_string|remove_[a-z_]*)$")
+
+
+# predicates that are applied to INPUT expressions whose redundant parentheses the same pass removes: their answer must not depend on
+# such parentheses, or the second pass decides differently (name -> why)
+PAREN_TRANSPARENT = {
+    "contains_nested_function": "should_collapse_function_body / is_if_guard decide on the input body; `return (function() end)` loses its parentheses in the same pass",
+    "is_brackets_string": "the `[ [[k]] ]` padding is decided on the input key; `[([[k]])]` loses its parentheses in the same pass",
+    "is_string": "format_prefix hangs a long prefix unless it is a string; the test looks through the prefix parentheses it keeps",
+}
+
+
+def paren_transparency(ses, rep, fs="default"):
+    """P  for the predicates of PAREN_TRANSPARENT: on a parenthesised expression every returning path hands the question on to a predicate
+    call on the inner expression (no answer is given for the parentheses themselves)"""
+    from .c07 import mk_variant, lazy_args
+    from . import c02
+    flagged = []
+    funcs = ses.mir("lib", fs)
+    for nm, why in PAREN_TRANSPARENT.items():
+        cands = [f for f in funcs.get(nm, []) if f.kind == "fn"]
+        if len(cands) != 1:
+            raise Inconclusive(f"{nm}: not found")
+        f = cands[0]
+        ex = ses.executor("lib", fs, inline=lambda n, fn: False)
+        ex.max_block_visits = 2
+        node = mk_variant(ex, "Expression", "Parentheses", "paren")
+        inner = node.fields[[i for i, x in enumerate(node.fields) if isinstance(x, RefV)][0]].v
+        args = [RefV(node) if re.search(r"(^|[&: ])Expression$", t.strip()) else a for (p_, t), a in zip(f.params, lazy_args(ex, f))]
+        outs = ex.run(f, args)
+        rep.fn(f)
+        n = 0
+        for pi, o in enumerate(outs):
+            if o.kind != "return" or not isinstance(o.value, Sym):
+                continue
+            n += 1
+            P = c02.Prov(ex, o)
+            via = [t for t in o.trace if t[0] == "havoc" and isinstance(t[3], Sym) and (t[4] if len(t) > 4 else t[2])
+                   and inner.oid in P.of((t[4] if len(t) > 4 else t[2])[0])]
+            sv = z3.simplify(o.value.t)
+            const = z3.is_true(sv) or z3.is_false(sv)
+            oid = f"paren-transparency/{nm}/path{pi}/answers-for-the-inner-expression"
+            r, m = ses.obligation(oid, list(o.pc), z3.BoolVal(const or not via), f"{nm}((e)) is decided by a predicate call on e")
+            if r == "sat":
+                flagged.append((oid, f"{nm} answers {sv} for a parenthesised expression without looking inside: the answer changes once the same pass has removed "
+                                     "the parentheses", "paren", {"function": nm}))
+        if n == 0:
+            raise Inconclusive(f"{nm}: no returning path for a parenthesised expression")
+    return flagged
+
+
+PAREN_PROGRAMS = [
+    ("local f = function() return (function() end) end\nlocal g = function() x = (function() end) end\n", ["--collapse-simple-statement", "FunctionOnly"]),
+    ("local f = function() return (function() end) end\n", ["--collapse-simple-statement", "Always"]),
+    ("if x then return (function() end) end\n", ["--collapse-simple-statement", "ConditionalOnly"]),
+    ("local t = { [([[key]])] = 1, [ ([==[k]==]) ] = 2 }\n", []),
+    ('local s = ("some rather long string used as a prefix"):format(first_argument_name, second_argument_name, third)\n', ["--column-width", "60"]),
+]
+
+
+def replay_paren(info):
+    binp = common.native_build("default")
+    for src, flags in PAREN_PROGRAMS:
+        rc1, out1, _ = common.run_stylua(binp, src, flags)
+        if rc1 != 0:
+            continue
+        rc2, out2, _ = common.run_stylua(binp, out1, flags)
+        if rc2 != 0 or out2 != out1:
+            return f"{flags}: second pass changes {out1!r} into {out2!r}", {"source": src, "flags": flags, "pass1": out1, "pass2": out2}
+    return None, {"tried": len(PAREN_PROGRAMS)}
 
 
 def measured_values(ses, rep, fs="full"):
